@@ -3628,3 +3628,135 @@ Proof.
   apply K. right. left.
   destruct HF as [_ [_ [HV _]]]. destruct (HV Hp) as [_ [V2 _]]. apply V2; [exact Hk|]. rewrite tracked_eq. apply in_or_app. left. exact Hl.
 Qed.
+
+(* ---- a tower that keeps failing ---- *)
+Definition fails (a : attempt) : bool :=
+  match at_reg a with RReceipt _ _ _ _ => false | _ => true end &&
+  match at_adds a with [] => true | x :: _ => is_request_error x end.
+
+Definition same_but_log (s s' : fstate) : Prop :=
+  f_c s' = f_c s /\ f_mgr s' = f_mgr s /\ f_chan s' = f_chan s /\ f_tasks s' = f_tasks s /\ f_due s' = f_due s /\ f_mgr_dead s' = f_mgr_dead s.
+
+Lemma run_attempt_fails s t a :
+  FInv s -> poisoned s = false -> knownc (f_c s) t -> retrier_pending s t <> [] -> fails a = true ->
+  same_but_log s (fst (run_attempt s t a)) /\
+  (snd (run_attempt s t a) = RunErr EUnreachable \/ snd (run_attempt s t a) = RunErr (ESubscription false)).
+Proof.
+  intros HF Hp Hk Hne Hf. unfold fails in Hf. apply andb_true_iff in Hf. destruct Hf as [Hfr Hfa].
+  unfold run_attempt. rewrite Hp. unfold knownc, amem in Hk. destruct (aget (c_towers (f_c s)) t) as [su|] eqn:Et; [|discriminate].
+  destruct (is_subscription_error (su_status su)).
+  { destruct (at_reg a); try discriminate; cbn [fst snd]; (split; [repeat split|right; reflexivity]). }
+  unfold run_fuel. cbn [run_while]. destruct (retrier_pending s t) as [|x p] eqn:Ep; [contradiction|].
+  destruct (reorder (at_order a) (x :: p)) as [|l locs] eqn:Er.
+  { exfalso. assert (In x (reorder (at_order a) (x :: p))) by (apply In_reorder; left; reflexivity). rewrite Er in H. contradiction. }
+  cbn [run_for]. rewrite Hp.
+  assert (Hl : In l (retrier_pending s t)) by (rewrite Ep; apply (In_reorder (at_order a)); rewrite Er; left; reflexivity).
+  pose proof HF as [HI [_ [HV _]]]. destruct (HV Hp) as [_ [V2 _]].
+  assert (HPl : Prow (c_db (f_c s)) t l).
+  { apply V2; [unfold knownc, amem; rewrite Et; reflexivity|]. rewrite tracked_eq. apply in_or_app. left. exact Hl. }
+  destruct (pending_body _ t l (proj1 HI) HPl) as [body ->].
+  destruct (at_adds a) as [|rp adds']; cbn [next_reply]; [cbn [fst snd]; split; [repeat split|left; reflexivity]|].
+  destruct rp; try discriminate; cbn [fst snd]; (split; [repeat split|left; reflexivity]).
+Qed.
+
+Lemma stat_set_status c t st k : stat (wt_set_tower_status c t st) k = if N.eqb k t then option_map (fun _ => st) (stat c t) else stat c k.
+Proof.
+  unfold stat, wt_set_tower_status. destruct (aget (c_towers c) t) as [su|] eqn:E.
+  - cbn [c_towers with_towers]. rewrite aget_aset. destruct (N.eqb k t) eqn:Ek; [|reflexivity]. reflexivity.
+  - destruct (N.eqb k t) eqn:Ek; [|reflexivity]. apply N.eqb_eq in Ek. subst. rewrite E. reflexivity.
+Qed.
+
+(* the task gives up (the back-off is exhausted) on a transient error: idle, unreachable, rows untouched *)
+Lemma idle_arm s t e :
+  is_permanent e = false -> (e = EUnreachable \/ e = ESubscription false) -> knownc (f_c s) t ->
+  forall r0, aget (f_mgr s) t = Some r0 ->
+  let s' := fst (task_step s t (RunErr e) false) in
+  snd (task_step s t (RunErr e) false) = OutIdle e /\
+  stat (f_c s') t = Some Unreachable /\ rstat s' t = Some RIdle /\ retrier_pending s' t = [] /\
+  aget (c_retriers (f_c s')) t = Some RIdle /\ c_db (f_c s') = c_db (f_c s) /\ f_tasks s' = remove_one t (f_tasks s) /\
+  f_chan s' = f_chan s /\ f_mgr_dead s' = f_mgr_dead s /\ poisoned s' = poisoned s.
+Proof.
+  intros Hperm He Hk r0 Er. unfold task_step. rewrite Hperm. cbn [negb andb].
+  set (c1 := with_retriers (f_c s) (aset (c_retriers (f_c s)) t RIdle)).
+  set (c2 := wt_set_tower_status c1 t Unreachable).
+  set (s' := end_task (retrier_clear (retrier_set_status (set_c s c2) t RIdle) t) t).
+  assert (Hmain : stat (f_c s') t = Some Unreachable /\ rstat s' t = Some RIdle /\ retrier_pending s' t = [] /\
+     aget (c_retriers (f_c s')) t = Some RIdle /\ c_db (f_c s') = c_db (f_c s) /\ f_tasks s' = remove_one t (f_tasks s) /\
+     f_chan s' = f_chan s /\ f_mgr_dead s' = f_mgr_dead s /\ poisoned s' = poisoned s).
+  { assert (Ec : f_c s' = c2) by (unfold s'; cbn [f_c end_task set_tasks]; rewrite f_c_retrier_clear, f_c_retrier_set_status; reflexivity).
+    assert (Er2 : aget (f_mgr (retrier_set_status (set_c s c2) t RIdle)) t = Some {| r_status := RIdle; r_pending := r_pending r0 |}).
+    { rewrite (retrier_set_status_eq (set_c s c2) t RIdle r0 Er). unfold put_retrier, set_mgr. cbn [f_mgr]. apply aget_aset_same. }
+    rewrite Ec. split.
+    { unfold c2. rewrite stat_set_status, N.eqb_refl. unfold stat, c1. cbn [c_towers with_retriers]. unfold knownc, amem in Hk.
+      destruct (aget (c_towers (f_c s)) t); [reflexivity|discriminate]. }
+    split.
+    { unfold s'. change (rstat (end_task (retrier_clear (retrier_set_status (set_c s c2) t RIdle) t) t) t) with (rstat (retrier_clear (retrier_set_status (set_c s c2) t RIdle) t) t).
+      rewrite rstat_retrier_clear. unfold rstat. rewrite Er2. reflexivity. }
+    split.
+    { unfold s'. change (retrier_pending (end_task (retrier_clear (retrier_set_status (set_c s c2) t RIdle) t) t) t) with (retrier_pending (retrier_clear (retrier_set_status (set_c s c2) t RIdle) t) t).
+      rewrite (retrier_clear_eq _ t _ Er2), retrier_pending_put, N.eqb_refl. reflexivity. }
+    split; [unfold c2; rewrite retriers_set_status; unfold c1; cbn [c_retriers with_retriers]; apply aget_aset_same|].
+    split; [unfold c2; rewrite DbInv_set_status; reflexivity|].
+    split; [unfold s'; cbn [f_tasks end_task set_tasks]; rewrite retrier_clear_tasks, retrier_set_status_tasks; reflexivity|].
+    split; [unfold s', retrier_clear, retrier_set_status; cbn [f_mgr set_c]; rewrite Er; cbn [f_mgr put_retrier set_mgr]; rewrite aget_aset_same; reflexivity|].
+    split; [unfold s', retrier_clear, retrier_set_status; cbn [f_mgr set_c]; rewrite Er; cbn [f_mgr put_retrier set_mgr]; rewrite aget_aset_same; reflexivity|].
+    unfold poisoned. rewrite Ec. unfold c2. rewrite poisoned_set_status. reflexivity. }
+  destruct He as [-> | ->]; cbn [fst snd]; (split; [reflexivity|exact Hmain]).
+Qed.
+
+Lemma gives_up_one s t a :
+  FInv s -> poisoned s = false -> In t (f_tasks s) -> knownc (f_c s) t -> retrier_pending s t <> [] -> fails a = true ->
+  let s' := fst (f_retrier_run s t [a]) in
+  (at_more a = true -> same_but_log s s' /\ exists e, snd (f_retrier_run s t [a]) = OutBackoff e) /\
+  (at_more a = false ->
+     (exists e, snd (f_retrier_run s t [a]) = OutIdle e) /\
+     stat (f_c s') t = Some Unreachable /\ rstat s' t = Some RIdle /\ retrier_pending s' t = [] /\
+     aget (c_retriers (f_c s')) t = Some RIdle /\ c_db (f_c s') = c_db (f_c s) /\ ~ In t (f_tasks s') /\
+     f_chan s' = f_chan s /\ f_mgr_dead s' = f_mgr_dead s /\ poisoned s' = false).
+Proof.
+  intros HF Hp Hin Hk Hne Hf. cbn [f_retrier_run]. apply (proj2 (memN_In t (f_tasks s))) in Hin as Hm. rewrite Hm. cbn [negb].
+  destruct (run_attempt_fails s t a HF Hp Hk Hne Hf) as [Hsame Hres].
+  destruct (run_attempt s t a) as [s1 r]. cbn [fst snd] in Hsame, Hres.
+  destruct Hsame as [E1 [E2 [E3 [E4 [E5 E6]]]]].
+  assert (He : exists e, r = RunErr e /\ is_permanent e = false /\ (e = EUnreachable \/ e = ESubscription false)).
+  { destruct Hres as [->| ->]; eexists; split; try reflexivity; split; try reflexivity; auto. }
+  destruct He as [e [-> [Hperm Hcase]]].
+  assert (Hrun : rstat s t = Some RRunning) by (apply HF, Hin).
+  unfold rstat in Hrun. destruct (aget (f_mgr s) t) as [r0|] eqn:Er; [|discriminate].
+  split.
+  - intros Hmore. unfold task_step. rewrite Hperm, Hmore. cbn [negb andb fst snd]. split; [repeat split; assumption|eexists; reflexivity].
+  - intros Hmore. rewrite Hmore.
+    assert (Er1 : aget (f_mgr s1) t = Some r0) by (rewrite E2; exact Er).
+    assert (Hk1 : knownc (f_c s1) t) by (rewrite E1; exact Hk).
+    destruct (idle_arm s1 t e Hperm Hcase Hk1 r0 Er1) as [A [B [C [D [F [G [H [I0 [J K]]]]]]]]].
+    destruct (task_step s1 t (RunErr e) false) as [s2 o]. cbn [fst snd] in *. subst o. cbn [fst snd].
+    split; [exists e; reflexivity|]. split; [exact B|]. split; [exact C|]. split; [exact D|]. split; [exact F|].
+    split; [rewrite G, E1; reflexivity|]. split.
+    + rewrite H, E4. apply (remove_one_NoDup t (f_tasks s)). apply HF.
+    + split; [congruence|]. split; [congruence|]. rewrite K. unfold poisoned. rewrite E1. exact Hp.
+Qed.
+
+(* C13 gives_up_truthfully, the retry task: against a tower that keeps failing (connection refused, garbage, reset,
+   undecodable signature; a failing re-registration after a subscription error) every attempt leaves the state
+   untouched while the back-off goes on, and when the back-off is exhausted the tower is shown unreachable, its
+   retrier idle (also in WTClient::retriers, so retrytower is accepted), the in-memory set cleared and the database
+   - every pending row - untouched *)
+Theorem gives_up_truthfully ops t a :
+  ops_fresh f_init ops = true -> let s := frun f_init ops in poisoned s = false ->
+  In t (f_tasks s) -> knownc (f_c s) t -> retrier_pending s t <> [] -> fails a = true ->
+  let s' := fst (fstep s (FRetrierRun t [a])) in
+  (at_more a = true -> same_but_log s s' /\ exists e, snd (fstep s (FRetrierRun t [a])) = ORun (OutBackoff e)) /\
+  (at_more a = false ->
+     (exists e, snd (fstep s (FRetrierRun t [a])) = ORun (OutIdle e)) /\
+     stat (f_c s') t = Some Unreachable /\ rstat s' t = Some RIdle /\ retrier_pending s' t = [] /\
+     aget (c_retriers (f_c s')) t = Some RIdle /\ c_db (f_c s') = c_db (f_c s) /\ ~ In t (f_tasks s') /\
+     retry_allowed s' t = true).
+Proof.
+  intros Hg s Hp Hin Hk Hne Hf. pose proof (FInv_frun ops f_init FInv_init Hg) as HF. fold s in HF.
+  destruct (gives_up_one s t a HF Hp Hin Hk Hne Hf) as [A B]. cbn [fstep].
+  destruct (f_retrier_run s t [a]) as [s2 o]. cbn [fst snd] in *. split.
+  - intros Hm. destruct (A Hm) as [X [e ->]]. split; [exact X|exists e; reflexivity].
+  - intros Hm. destruct (B Hm) as [[e ->] [B1 [B2 [B3 [B4 [B5 [B6 [B7 [B8 B9]]]]]]]]].
+    split; [exists e; reflexivity|]. repeat (split; [assumption|]).
+    unfold retry_allowed. rewrite B9. cbn [negb andb]. unfold stat in B1. destruct (aget (c_towers (f_c s2)) t); [|discriminate]. rewrite B4. reflexivity.
+Qed.
